@@ -72,6 +72,7 @@ class ExcVal:
         self.kind = kind
         self.tag = tag  # z3 Bool: "is an AnyIO cancellation" (message prefix abstraction)
         self.attrs = {}
+        self.ref = None  # heap identity (z3 Int), assigned when the exception is stored into / read from the heap
 
     def __repr__(self):
         return f"<exc {self.pycls.__name__ if self.pycls else self.kind}>"
@@ -393,7 +394,7 @@ class Interp:
         if isinstance(v, str):
             return self.lib.str_id(v)
         if isinstance(v, ExcVal):
-            return z3.IntVal(1000000 + v.ident)
+            return self.lib.exc_ref(self, v)
         raise Unsupported(f"cannot convert {v!r} to a term")
 
     def wrap(self, t, ty):
@@ -680,7 +681,8 @@ class Interp:
             return f.fn(self, *args, **kwargs)
         if isinstance(f, ClassVal):
             if f.pycls is not None and isinstance(f.pycls, type) and issubclass(f.pycls, BaseException):
-                return ExcVal(f.pycls, args)
+                r = self.ctx.unit.construct_exception(self, f.pycls, args)
+                return r if r is not NotImplemented else ExcVal(f.pycls, args)
             if f.info is not None:
                 return self.construct(f.info, args, kwargs)
             r = self.lib.construct_model(self, f, args, kwargs)
